@@ -53,7 +53,7 @@ vars == <<inp, pc, n2b, slice, bx, order, k, atoms, inters, medges, gattr, added
 (* deviation flag settings *)
 NoDev == [unsorted |-> FALSE, firstKeeps |-> FALSE, sliceAny |-> FALSE, offByOne |-> FALSE, renumber |-> FALSE,
           keepRemoved |-> FALSE, firstFragUnshifted |-> FALSE, treeEdges |-> FALSE, dedupKey |-> FALSE,
-          exMax |-> FALSE, exTagLost |-> FALSE, exCutoff |-> FALSE, modAnyRes |-> FALSE, versionInKey |-> FALSE, fragIdOrder |-> FALSE, modAnyName |-> FALSE, explicitAfterExcl |-> FALSE]
+          exMax |-> FALSE, exTagLost |-> FALSE, exCutoff |-> FALSE, modAnyRes |-> FALSE, versionInKey |-> FALSE, fragIdOrder |-> FALSE, modAnyName |-> FALSE, explicitAfterExcl |-> FALSE, retagLowered |-> FALSE, tagDropped |-> FALSE]
 DevUnsorted == [NoDev EXCEPT !.unsorted = TRUE]
 DevFirstKeeps == [NoDev EXCEPT !.firstKeeps = TRUE]
 DevSliceAny == [NoDev EXCEPT !.sliceAny = TRUE]
@@ -69,11 +69,13 @@ DevExCutoff == [NoDev EXCEPT !.exCutoff = TRUE]
 DevModAnyRes == [NoDev EXCEPT !.modAnyRes = TRUE]
 DevModAnyName == [NoDev EXCEPT !.modAnyName = TRUE]
 DevExplicitAfterExcl == [NoDev EXCEPT !.explicitAfterExcl = TRUE]
+DevRetagLowered == [NoDev EXCEPT !.retagLowered = TRUE]
+DevTagDropped == [NoDev EXCEPT !.retagLowered = TRUE, !.tagDropped = TRUE]      \* seed5-C14-2 on top of what the tree does
 \* what the tree currently does: the open findings switched on (known_findings.d)
 DevVersionInKey == [NoDev EXCEPT !.versionInKey = TRUE]
 DevF32 == [NoDev EXCEPT !.fragIdOrder = TRUE]
 \* what the tree currently does = NoDev plus the open findings; none is open (F14 fc4ff7c, F30 cca8623, F31 a812f9b, F32 8d129a5 repaired)
-DevAsIs == NoDev
+DevAsIs == [NoDev EXCEPT !.retagLowered = TRUE]      \* open: retag-lowered (C14, histories of one force-field object)
 
 ProteinNames == {"GLY", "ALA", "CYS", "VAL", "LEU", "ILE", "MET", "PRO", "HYP", "ASN", "GLN", "ASP", "ASP0", "GLU", "GLU0",
                  "THR", "SER", "LYS", "LYS0", "ARG", "ARG0", "HIS", "HISH", "PHE", "TYR", "TRP"}
@@ -362,20 +364,37 @@ MatchNodes ==
   /\ UNCHANGED <<inp, bx, order, k, atoms, inters, medges, gattr, added, cbase, clist, removed, molN>>
 
 (* ---- tag_exclusions ---- *)
+\* History layer: one force-field OBJECT may serve several molecules in one process (I.hist = the residue names of the molecules
+\* built before from the same object).  tag_exclusions changes the object: the blocks a mixed molecule uses keep the lowered nrexcl and
+\* the tag with their original distance.  TagStep is one call of tag_exclusions on the block state X for the blocks `used`.
+\*  intended: the original distance of a block is its tag if it carries one, else its nrexcl; a molecule that uses one distance restores it
+\*  Dev.retagLowered (what the tree does, finding retag-lowered): the current - possibly lowered - nrexcl is taken for the original
+\*           distance and written into the tag; nothing is restored
+\*  Dev.tagDropped (seed5-C14-2): tags left by earlier molecules are removed while the distances are collected
+TagStep(X, used, D) ==
+  LET orig(b) == IF D.retagLowered \/ X[b].tag = NoTag \/ D.tagDropped THEN X[b].nrexcl ELSE X[b].tag
+      ub == {b \in DOMAIN X : X[b].name \in used}
+      ex == {orig(b) : b \in ub}
+      lo == CHOOSE x \in ex : \A y \in ex : (IF D.exMax THEN y <= x ELSE x <= y)
+  IN [b \in DOMAIN X |->
+        IF b \notin ub THEN X[b]
+        ELSE IF Cardinality(ex) > 1 THEN [name |-> X[b].name, nrexcl |-> lo, tag |-> IF D.exTagLost THEN NoTag ELSE orig(b)]
+        ELSE IF D.retagLowered THEN (IF D.tagDropped THEN [X[b] EXCEPT !.tag = NoTag] ELSE X[b])
+        ELSE [name |-> X[b].name, nrexcl |-> orig(b), tag |-> NoTag]]
+RECURSIVE BxAfter(_, _, _, _)
+BxAfter(I, X, h, D) == IF h > Len(I.hist) THEN X ELSE BxAfter(I, TagStep(X, ToSet(I.hist[h]), D), h + 1, D)
+Bx0(I, D) == BxAfter(I, [b \in DOMAIN FB(I) |-> [name |-> FB(I)[b].name, nrexcl |-> FB(I)[b].nrexcl, tag |-> NoTag]], 1, D)
 TagExclusions ==
   /\ pc = "tag"
   /\ LET I == inp
          used == {n2b[i] : i \in Pos(I)}
-         ex == {NrexclOf(I, nm) : nm \in used}
-         lo == CHOOSE x \in ex : \A y \in ex : (IF Dev.exMax THEN y <= x ELSE x <= y)
-     IN /\ bx' = [b \in DOMAIN FB(I) |->
-                    IF Cardinality(ex) > 1 /\ FB(I)[b].name \in used
-                    THEN [name |-> FB(I)[b].name, nrexcl |-> lo, tag |-> IF Dev.exTagLost THEN NoTag ELSE FB(I)[b].nrexcl]
-                    ELSE [name |-> FB(I)[b].name, nrexcl |-> FB(I)[b].nrexcl, tag |-> NoTag]]
+     IN /\ bx' = TagStep(Bx0(I, Dev), used, Dev)
+        /\ fired' = IF Dev.retagLowered /\ TagStep(Bx0(I, Dev), used, Dev) # TagStep(Bx0(I, NoDev), used, NoDev)
+                     THEN fired \cup {"retag-lowered"} ELSE fired
         \* add_blocks loops over the residue nodes sorted by residue id
         /\ \E o \in (IF Dev.unsorted THEN Perms(Pos(I)) ELSE {[i \in Pos(I) |-> i]}) : order' = o
   /\ pc' = "add" /\ k' = 1
-  /\ UNCHANGED <<inp, n2b, slice, atoms, inters, medges, gattr, added, cbase, fid, clist, removed, molN, err, fired>>
+  /\ UNCHANGED <<inp, n2b, slice, atoms, inters, medges, gattr, added, cbase, fid, clist, removed, molN, err>>
 
 (* ---- add_blocks: one residue node per step ---- *)
 BxOf(nm) == bx[CHOOSE b \in DOMAIN bx : bx[b].name = nm]
